@@ -1369,6 +1369,20 @@ package res
 //@   # the default group is the full resource name (including the service name), as With/WithGroup callers spell it (C01)
 //@   ghost call group.toString#1 before :: assert full.name: same(arg_rname, rname)
 //@   loop 1 invariant 0 <= start && start <= i && i <= len(subrname) && len(tokens) >= 0 && muxOK(m) && len(subrname) > 0 && ref(tokens) >= old(nextRef())
+//@   # the name is cut at every separator: one token per separator plus one (empty tokens included), token j is the text
+//@   # between separator j-1 and separator j (same statement as splitPattern's)
+//@   opaque startOf tokEnd ndots
+//@   ghost loop 1 entry :: use ndotsStep(subrname, 0)
+//@   ghost loop 1 entry :: use startOfStep(subrname, 0)
+//@   ghost store i#2 before :: use ndotsStep(subrname, i)
+//@   ghost store start#2 before :: use tokEndIs(subrname, start, i)
+//@   ghost store start#2 before :: use startOfStep(subrname, len(tokens) - 1)
+//@   ghost call matchNode#1 before :: use tokEndIs(subrname, start, len(subrname))
+//@   ghost call matchNode#1 before :: use startOfStep(subrname, 0)
+//@   ghost call matchNode#1 before :: assert tokens.count: len(arg_toks) == ndots(subrname, len(subrname)) + 1
+//@   ghost call matchNode#1 before :: assert tokens.text: forall(j, 0, len(arg_toks), 0 <= startOf(subrname, j) && startOf(subrname, j) <= len(subrname) && len(arg_toks[j]) == tokEnd(subrname, startOf(subrname, j)) - startOf(subrname, j) && imp(len(arg_toks[j]) > 0, arg_toks[j][0] == subrname[startOf(subrname, j)]))
+//@   loop 1 invariant len(tokens) == ndots(subrname, i) && start == startOf(subrname, len(tokens)) && forall(k, start, i, subrname[k] != '.')
+//@   loop 1 invariant forall(j, 0, len(tokens), 0 <= startOf(subrname, j) && startOf(subrname, j) <= len(subrname) && len(tokens[j]) == tokEnd(subrname, startOf(subrname, j)) - startOf(subrname, j) && imp(len(tokens[j]) > 0, tokens[j][0] == subrname[startOf(subrname, j)]))
 //@
 //@ # tokens of a pattern: startOf(p, j) is the position where token j starts, ndots counts the separators
 //@ spec func startOf(p string, j int) int
